@@ -26,10 +26,10 @@ def rows(a):
 _FL = [0]
 
 
-def energy_record(x, dt, tts, nodal, ru, rd, stt, trim, start, scalar_tt=False):
+def energy_record(x, dt, tts, nodal, ru, rd, stt, trim, start, scalar_tt=False, dtype=float):
     import eqsig
     from eqsig import surface
-    s = eqsig.AccSignal(np.array(x, dtype=float), dt)
+    s = eqsig.AccSignal(np.array(x, dtype=dtype), dt)
     tt_arg = float(tts[0]) if scalar_tt else np.array(tts, dtype=float)
     _FL[0] += 1
     f_ = lambda b, j: [bool(b), np.bool_(b), int(bool(b))][(_FL[0] + j) % 3]          # flags as python bool / numpy bool / int
@@ -38,12 +38,13 @@ def energy_record(x, dt, tts, nodal, ru, rd, stt, trim, start, scalar_tt=False):
     try:
         out = surface.calc_surface_energy(s, tt_arg, **kw)
         cum = surface.calc_cum_abs_surface_energy(s, tt_arg, **kw)
+        mot = surface.get_time_shift_motions(s, tt_arg, **kw)
     except Exception as ex:       # an in-domain call must not raise: reported through the Lengths clause (no rows)
-        out = cum = np.zeros((0, 0))
+        out = cum = mot = np.zeros((0, 0))
     rul = [float(v) for v in (ru if hasattr(ru, "__len__") else [ru] * k)]
     rdl = [float(v) for v in (rd if hasattr(rd, "__len__") else [rd] * k)]
     return {"kind": "energy", "dt": enc(dt), "a": enc_seq(x), "tts": enc_seq(tts), "nodal": bool(nodal), "ru": enc_seq(rul), "rd": enc_seq(rdl),
-            "trim": bool(trim), "start": bool(start), "out": [enc_seq(r) for r in rows(out)], "cum": [enc_seq(r) for r in rows(cum)]}
+            "trim": bool(trim), "start": bool(start), "out": [enc_seq(r) for r in rows(out)], "cum": [enc_seq(r) for r in rows(cum)], "mot": [enc_seq(r) for r in rows(mot)]}
 
 
 def build_traces(path, tier, seed):
@@ -147,6 +148,42 @@ def build_traces(path, tier, seed):
                         add({"kind": "rel", "clause": "RowEqualsSingle", "x": enc_seq(single[:m]), "y": enc_seq(e[j][:m]), "f": enc(1.0)},
                             {"kind": "rel", "law": "RowEqualsSingle", "fn": fn_name, "row": j, "n": n, "dt": dt, "tt/dt": float(batch[j] / dt),
                              "nodal": nodal, "trim": trim, "start": start, "stt/dt": stt / dt})
+    # 2d. records held in the integer types a digitiser delivers (counts), with whole-number reduction factors given as
+    #     python / numpy integers or floats: the waves are real-valued whatever the record's storage type
+    for i in range(12 if tier == "quick" else 80):
+        n = int(rng.integers(6, 60))
+        dtp = [np.int8, np.int16, np.int32, np.uint8, np.int64, np.float32][int(rng.integers(6))]
+        if i < 4:
+            dtp = [np.int8, np.int16, np.uint8, np.int8][i]
+        top = {np.int8: 127, np.uint8: 255, np.int16: 32767}.get(dtp, 30000)
+        x = np.round(gen.record(rng, n, amp=1.0)[0] / 3.0 * top).clip(0 if dtp is np.uint8 else -top, top)
+        x[int(rng.integers(n))] = top                              # full scale somewhere
+        x[int(rng.integers(n))] = 0 if dtp is np.uint8 else -top
+        dt = [0.01, 0.5, 0.02][int(rng.integers(3))]
+        k = int(rng.integers(1, 4))
+        tts = [float(rng.integers(0, 9)) * dt / 2 for _ in range(k)] if rng.integers(2) else [float(rng.uniform(0, 4)) * dt for _ in range(k)]
+        form = i if i < 4 else int(rng.integers(4))
+        if form == 0:
+            ru, rd = int(rng.integers(1 + (i < 4), 4)), int(rng.integers(1, 4))
+        elif form == 1:
+            ru, rd = np.int64(rng.integers(1 + (i < 4), 4)), np.int8(rng.integers(1, 4))
+        elif form == 2:
+            ru, rd = np.array(rng.integers(1 + (i < 4), 4, size=k)), np.array(rng.integers(1, 4, size=k))
+        else:
+            ru, rd = float(rng.integers(1, 4)), float(rng.uniform(0.3, 2.0))
+        nodal, trim, start = bool(rng.integers(2)), bool(rng.integers(2)), bool(rng.integers(2))
+        with warnings.catch_warnings():
+            warnings.simplefilter("ignore")
+            rec = energy_record(x, dt, tts, nodal, ru, rd, 0.0, trim, start, dtype=dtp)
+        add(rec, {"kind": "energy", "n": n, "dt": dt, "tts": tts, "nodal": nodal, "trim": trim, "start": start, "record dtype": np.dtype(dtp).name,
+                  "up_red": repr(ru), "down_red": repr(rd)})
+        s_i, s_f = eqsig.AccSignal(np.array(x, dtype=dtp), dt), eqsig.AccSignal(np.array(x, dtype=float), dt)
+        kw = dict(nodal=nodal, up_red=ru, down_red=rd, trim=trim, start=start)
+        m_i, m_f = rows(surface.get_time_shift_motions(s_i, np.array(tts), **kw)), rows(surface.get_time_shift_motions(s_f, np.array(tts), **kw))
+        for j in range(len(m_f)):
+            add({"kind": "rel", "clause": "ShiftedWaveDefinition", "x": enc_seq(m_f[j]), "y": enc_seq(m_i[j] if len(m_i) > j and len(m_i[j]) == len(m_f[j]) else m_f[j] * np.nan), "f": enc(1.0)},
+                {"kind": "rel", "law": "get_time_shift_motions on an integer record equals the float record's", "record dtype": np.dtype(dtp).name,
+                 "up_red": repr(ru), "down_red": repr(rd), "row": j, "n": n})
     # 2b. whole- and half-sample delays written as decimal travel times (2*tt/dt lands a hair below/above an integer)
     xr = np.sin(np.arange(24) / 2.0) + 0.3
     for dt in (0.1, 0.01, 0.02):
